@@ -778,19 +778,31 @@ def shrink(ctx, runner, hl, fails):
     side = SIDES[hl['proto']]
     cur = dict(hl)
 
+    len_cache = {}
+
+    def lens_of(c):
+        k = id(c['msgs'])
+        if k not in len_cache:
+            len_cache.clear()
+            len_cache[k] = (c['msgs'], [len(side.frame(side.undesc(d))) for d in c['msgs']])     # (keeps the list alive: id stays unique)
+        return len_cache[k][1]
+
     def without(c, i, j):
         """`c` with messages i..j-1 removed, cut positions moved accordingly"""
-        frames = [side.frame(side.undesc(d)) for d in c['msgs']]
-        start = sum(len(f) for f in frames[:i])
-        ln = sum(len(f) for f in frames[i:j])
+        lens = lens_of(c)
+        start = sum(lens[:i])
+        ln = sum(lens[i:j])
         cuts = sorted({(x if x <= start else max(start, x - ln)) for x in c['cuts']})
         return dict(c, msgs=c['msgs'][:i] + c['msgs'][j:], cuts=cuts)
 
+    def spent():
+        return budget[0] <= 40 or time.time() > t_end
+
     # long streams (bursts): first remove blocks of messages, halving the block size (then the one-at-a-time loop below)
     blk = len(cur['msgs']) // 2
-    while blk >= 2 and budget[0] > 40:
+    while blk >= 2 and not spent():
         i, progressed = 0, False
-        while i < len(cur['msgs']) and budget[0] > 40:
+        while i < len(cur['msgs']) and not spent():
             c2 = without(cur, i, min(len(cur['msgs']), i + blk))
             if c2['msgs'] and still(c2):
                 cur, progressed = c2, True
@@ -798,20 +810,18 @@ def shrink(ctx, runner, hl, fails):
                 i += blk
         if not progressed or blk > len(cur['msgs']):
             blk //= 2
-    if len(cur['cuts']) > 4 and budget[0] > 40:
+    if len(cur['cuts']) > 4 and not spent():
         c2 = dict(cur, cuts=[], polls=[1])
         if still(c2):
             cur = c2
     changed = True
-    while changed and budget[0] > 0:
+    while changed and budget[0] > 0 and time.time() <= t_end:
         changed = False
-        frames = [side.frame(side.undesc(d)) for d in cur['msgs']]
         # drop a message
         for i in range(len(cur['msgs'])):
-            start = sum(len(f) for f in frames[:i])
-            ln = len(frames[i])
-            cuts = sorted({(c if c <= start else max(start, c - ln)) for c in cur['cuts']})
-            c2 = dict(cur, msgs=cur['msgs'][:i] + cur['msgs'][i + 1:], cuts=cuts)
+            if time.time() > t_end:
+                break
+            c2 = without(cur, i, i + 1)
             if c2['msgs'] and still(c2):
                 cur, changed = c2, True
                 break
@@ -1153,6 +1163,48 @@ def gen_malformed(ctx, side, n):
         yield {'kind': 'malformed', 'proto': side.name, 'script': script, 'how': how, 'n_frames': len(frames)}
 
 
+def gen_malformed_classes(ctx, side, quick):
+    """the systematic malformed-frame classes of hostile_gen (every class x packet type; signed / zero / non-canonical / non-numeric
+    BodyLength with totals around 0, 1, < header; maximum-size frames) between valid frames, cut at the class's own zones —
+    model/implementation agreement on the reader's framing decisions, event by event"""
+    import hostile_gen as HG
+    rng = ctx.rng
+    for rnd in range(1 if quick else 8):
+        if side.name == 'soup':
+            classes = HG.soup_malformed(rng, to_client=rng.random() < 0.5) + [HG.soup_garbage(rng) for _ in range(4)]
+        else:
+            good = [(35, rng.choice(['D', '8', 'AE'])), (49, 'ME'), (34, 5), (58, rng.choice(FIX_TEXTS))]
+            classes = HG.fix_malformed(rng, good, rng.choice(FIX_VERSIONS).encode(), follow_len=rng.choice([0, 40, 120])) + \
+                [HG.fix_garbage(rng) for _ in range(4)]
+        classes = [b for b in classes if 'MODEL_BOUNDARY' not in b['cls']]
+        big = [b for b in classes if b['len'] >= 5000]
+        classes = [b for b in classes if b['len'] < 5000] + (rng.sample(big, min(len(big), 3)) if quick else big)
+        for bad in classes:
+            pre = [side.frame(m) for m in side.gen_msgs(rng, rng.choice([0, 0, 1, 2]), True)]
+            post = [side.frame(m) for m in side.gen_msgs(rng, rng.choice([0, 1, 2, 3]), True)]
+            bb = HG.expand(bad['parts'])
+            stream = b''.join(pre) + bb + b''.join(post)
+            b0 = sum(len(f) for f in pre)
+            L = len(stream)
+            style = rng.choice(['whole', 'zones', 'zones', 'random', 'frame', 'bytes' if L <= 150 else 'random'])
+            if style == 'whole' or L < 2:
+                cuts = []
+            elif style == 'zones' and bad['zones']:
+                cuts = [b0 + z for z in rng.sample(bad['zones'], min(len(bad['zones']), rng.randint(1, 3)))]
+            elif style == 'frame':
+                cuts = [b0, b0 + len(bb), b0 + len(bb) - 1]
+            elif style == 'bytes':
+                cuts = list(range(1, L))
+            else:
+                cuts = rng.sample(range(1, L), min(L - 1, rng.randint(1, 4)))
+            pos = [0] + sorted({c for c in cuts if 0 < c < L}) + [L]
+            script = []
+            for a, b in zip(pos, pos[1:]):
+                script.append(['d', stream[a:b].hex()])
+                script += [['a', 2]] * rng.choice([0, 0, 1, 1, 2])
+            yield {'kind': 'malformed', 'proto': side.name, 'script': script, 'how': bad['cls'], 'n_frames': len(pre) + len(post) + 3}
+
+
 def run_malformed(ctx, runner, case):
     side = SIDES[case['proto']]
     try:
@@ -1321,6 +1373,15 @@ def run(ctx):
                 keep((side, c, r))
                 ctx.case(json.dumps(c['script']), nontrivial=True, sample_every=0)
                 ctx.count(f'{side.name}:malformed:{c["how"]}:' + ('stopped' if r['fin'].get('stopped') else 'alive'))
+        for c in gen_malformed_classes(ctx, side, quick):
+            if runner.hangs >= 2:
+                break
+            r = run_malformed(ctx, runner, c)
+            if r:
+                keep((side, c, r))
+                ctx.case(json.dumps(c['script']), nontrivial=True, sample_every=0)
+                how = ':'.join(c['how'].split(':')[:2])
+                ctx.count(f'{side.name}:malformed-class:{how}:' + ('stopped' if r['fin'].get('stopped') else 'alive'))
     runner.close()
     flush()
     check_wf_hypothesis()
